@@ -740,5 +740,28 @@ func genSystematic() []*Case {
 			mk("sys-argv", args, Prog{Rules: []Rule{{Kind: "pe", P1: Pattern{C: &Cond{Op: "nr", K: 1}, Inline: true}, Body: ed}, {Kind: "pn", Body: []Stmt{tr(2)}}}, End: []Stmt{tr(9)}})
 		}
 	}
+	// ARGC=n as an assignment OPERAND at every position of the operand list, seen through the main loop,
+	// plain getline and getline var (in BEGIN, in a rule, in END): the operand count changes in the middle of
+	// one operand walk
+	argcLists := [][]string{}
+	for _, base := range [][]string{{"f1", "f2"}, {"f1", "f2", "f3"}, {"f1"}, {"g1=2", "f1", "f2"}, {"f1", "", "f2"}, {"f3", "-", "f1"}, nil} {
+		for pos := 0; pos <= len(base); pos++ {
+			for n := 0; n <= len(base)+3; n++ {
+				l := append(append(append([]string{}, base[:pos]...), fmt.Sprintf("ARGC=%d", n)), base[pos:]...)
+				argcLists = append(argcLists, l)
+			}
+		}
+	}
+	gm := func(t byte) Stmt {
+		return Stmt{Op: "G", Src: Src{K: 'm'}, Tgt: Tgt{K: t, Name: "g0"}}
+	}
+	for _, args := range argcLists {
+		mk("sys-argc-operand", args, Prog{Begin: []Stmt{tr(1)}, Rules: []Rule{{Kind: "pn", Body: []Stmt{tr(2)}}}, End: []Stmt{tr(9)}})
+		for _, t := range []byte{'l', 'v'} {
+			mk("sys-argc-operand", args, Prog{Begin: []Stmt{gm(t), tr(1), gm(t), tr(3)}, Rules: []Rule{{Kind: "pn", Body: []Stmt{tr(2)}}}, End: []Stmt{tr(9)}})
+			mk("sys-argc-operand", args, Prog{Begin: []Stmt{{Op: "W", Src: Src{K: 'm'}, Tgt: Tgt{K: t, Name: "g0"}, A: []Stmt{tr(1)}}, tr(3)}, End: []Stmt{tr(9)}})
+			mk("sys-argc-operand", args, Prog{Rules: []Rule{{Kind: "pn", Body: []Stmt{tr(2), gm(t), tr(3)}}}, End: []Stmt{gm(t), tr(9)}})
+		}
+	}
 	return cs
 }
